@@ -100,6 +100,9 @@ def run(ctx):
         else:
             r.fail("C01.wholesale", kk, "%s replaces its whole region by `%s`: everything else in the region is deleted, and this site with these guards has not been shown to delete only layout or the item the rule is documented to remove" % (fi.key, norm(n.args[0])[:40]), fi.loc(n))
     r.extra["wholesale_replacement_sites"] = n_whole
+    from .c03 import _layout_predicate
+
+    _layout_predicate(r, p, "C01.wholesale")  # several table reasons above rest on it
     if n_whole < 15:
         raise AnalysisError("only %d whole-region replacement sites found" % n_whole)
 
